@@ -322,7 +322,7 @@ theorem nodup_eraseIdx_eq_filter (l : List Aid) (i : Nat) (a : Aid) (hn : l.Nodu
     | succ i =>
       have hi' : xs[i]? = some a := by simpa using hi
       have hxa : x ≠ a := by rintro rfl; exact hx (List.mem_of_getElem? hi')
-      simp [List.filter_cons, hxa, ih i hxs hi']
+      simp [hxa, ih i hxs hi']
 
 /-- The property's description of one call of the experimental API: who is in the space (in order of
     creation) and the position last assigned to each agent (`none` until the first assignment). -/
@@ -424,5 +424,272 @@ theorem efold_refines {c : ECfg} (ops : List EOp) {s : ESpace} {st : List Aid ×
 
 theorem erun_refines (c : ECfg) (cap : Nat) (ops : List EOp) : ERef c (erun c cap ops) (espec c ops) :=
   efold_refines ops ⟨einv_init c cap, rfl, rfl, by simp, by simp⟩
+
+/-! ### queries -/
+
+theorem rows_getElem? {s : ESpace} (h : EInv s) (i : Nat) :
+    (rows s)[i]? = if i < s.n then some (s.buf i) else none := by
+  simp only [rows, h.view, List.getElem?_map]
+  by_cases hi : i < s.n
+  · simp [hi]
+  · simp [hi]
+
+/-- pairing the agent list with the rows of `agent_positions` pairs every agent with its position -/
+theorem mem_zip_rows {s : ESpace} (h : EInv s) (a : Aid) (q : Pos) :
+    (a, q) ∈ s.active.zip (rows s) ↔ a ∈ s.active ∧ getPos s a = .ok q := by
+  rw [List.mem_iff_getElem?]
+  constructor
+  · rintro ⟨i, hi⟩
+    obtain ⟨h1, h2⟩ := List.getElem?_zip_eq_some.mp hi
+    simp only at h1 h2
+    have hidx := (h.idx a i).mpr h1
+    rw [rows_getElem? h, if_pos (h.lt hidx)] at h2
+    exact ⟨List.mem_of_getElem? h1, by rw [getPos_of_idx h hidx]; simpa using h2⟩
+  · rintro ⟨ha, hq⟩
+    obtain ⟨i, hidx⟩ := (h.mem_iff a).mp ha
+    rw [getPos_of_idx h hidx] at hq
+    refine ⟨i, List.getElem?_zip_eq_some.mpr ⟨(h.idx a i).mp hidx, ?_⟩⟩
+    rw [rows_getElem? h, if_pos (h.lt hidx)]; simpa using hq
+
+theorem mem_zip_calcD2 {s : ESpace} (h : EInv s) (pt : Pos) (a : Aid) (d : Int) :
+    (a, d) ∈ s.active.zip (calcD2 s pt) ↔
+      ∃ q, a ∈ s.active ∧ getPos s a = .ok q ∧ d = edist2 s.cfg pt q := by
+  unfold calcD2
+  rw [List.zip_map_right, List.mem_map]
+  constructor
+  · rintro ⟨⟨b, q⟩, hm, he⟩
+    simp only [Prod.map, id, Prod.mk.injEq] at he
+    obtain ⟨rfl, rfl⟩ := he
+    obtain ⟨h1, h2⟩ := (mem_zip_rows h b q).mp hm
+    exact ⟨q, h1, h2, rfl⟩
+  · rintro ⟨q, h1, h2, rfl⟩
+    exact ⟨(a, q), (mem_zip_rows h a q).mpr ⟨h1, h2⟩, rfl⟩
+
+theorem zip_calcD2_fst {s : ESpace} (h : EInv s) (pt : Pos) :
+    (s.active.zip (calcD2 s pt)).map (·.1) = s.active := by
+  rw [List.map_fst_zip]
+  simp [calcD2, rows, h.view, h.len]
+
+theorem calcD2_length {s : ESpace} (h : EInv s) (pt : Pos) : (calcD2 s pt).length = s.n := by
+  simp [calcD2, rows, h.view]
+
+/-! ### k nearest -/
+
+theorem knnPick_some {s : ESpace} {d : List Int} {i : Nat} {ad : Aid × Int} (h : knnPick s d i = some ad) :
+    s.active[i]? = some ad.1 ∧ d[i]? = some ad.2 := by
+  unfold knnPick at h
+  split at h
+  · rename_i a x ha hx; cases h; exact ⟨ha, hx⟩
+  · cases h
+
+theorem knnPick_of_lt {s : ESpace} {d : List Int} {i : Nat} (h1 : i < s.active.length) (h2 : i < d.length) :
+    knnPick s d i = some (s.active[i], d[i]) := by
+  simp [knnPick, List.getElem?_eq_getElem h1, List.getElem?_eq_getElem h2]
+
+theorem map_some_getElem? {α β : Type} {l : List α} {F : α → Option β} {r : List β}
+    (hm : l.map F = r.map some) (u : Nat) (y : β) :
+    r[u]? = some y ↔ ∃ x, l[u]? = some x ∧ F x = some y := by
+  have := congrArg (fun z => z[u]?) hm
+  simp only [List.getElem?_map] at this
+  constructor
+  · intro hy
+    rw [hy] at this
+    cases hx : l[u]? with
+    | none => rw [hx] at this; cases this
+    | some x => rw [hx] at this; exact ⟨x, rfl, by simpa using this⟩
+  · rintro ⟨x, hx, hF⟩
+    rw [hx] at this
+    cases hr : r[u]? with
+    | none => rw [hr] at this; simp at this
+    | some y' => rw [hr] at this; simp at this; rw [hF] at this; simpa using this.symm
+
+theorem kNearest_spec {argpart : List Int → Nat → List Nat} (hap : ArgPartSpec argpart)
+    {s : ESpace} (h : EInv s) (pt : Pos) {k : Nat} (hk : 1 ≤ k) (hkn : k ≤ s.n) :
+    ∃ res, kNearest argpart s pt k = .ok res ∧ res.length = k ∧ (res.map (·.1)).Nodup ∧
+      (∀ ad ∈ res, ad ∈ s.active.zip (calcD2 s pt)) ∧
+      (∀ ad ∈ res, ∀ be ∈ s.active.zip (calcD2 s pt), be.1 ∉ res.map (·.1) → ad.2 ≤ be.2) := by
+  have hd : (calcD2 s pt).length = s.n := calcD2_length h pt
+  generalize hdd : calcD2 s pt = d at hd
+  obtain ⟨hperm, hpiv⟩ := hap d (k - 1) (by omega)
+  generalize hL : argpart d (k - 1) = L at hperm hpiv
+  have hLlen : L.length = s.n := by rw [hperm.length_eq, List.length_range, hd]
+  have hLnd : L.Nodup := hperm.nodup_iff.mpr List.nodup_range
+  have hLmem : ∀ x ∈ L, x < s.n := fun x hx => by
+    have := hperm.mem_iff.mp hx; rw [hd] at this; simpa using this
+  have hidxnd : (L.take k).Nodup := hLnd.sublist (List.take_sublist _ _)
+  have hall : ∀ i ∈ L.take k, ∃ y, knnPick s d i = some y := by
+    intro i hi
+    have := hLmem i (List.mem_of_mem_take hi)
+    exact ⟨_, knnPick_of_lt (by rw [← h.len]; exact this) (by rw [hd]; exact this)⟩
+  obtain ⟨r, hc, hm⟩ := collect_map_of_all_some (L.take k) (knnPick s d) hall
+  have hkn0 : k ≠ 0 := by omega
+  have hnot : ¬ d.length < k := by omega
+  have hres : kNearest argpart s pt k = .ok r := by
+    simp only [kNearest, hdd, hkn0, if_false, hnot, hL, hc]
+  have hget := fun u y => map_some_getElem? hm u y
+  have hrlen : r.length = k := by
+    have := congrArg List.length hm
+    simp only [List.length_map, List.length_take] at this
+    omega
+  -- every returned pair sits at an index of the first k entries of L
+  have helem : ∀ u ad, r[u]? = some ad → u < k ∧ ∃ i, L[u]? = some i ∧ s.active[i]? = some ad.1 ∧ d[i]? = some ad.2 := by
+    intro u ad hu
+    obtain ⟨i, hi, hF⟩ := (hget u ad).mp hu
+    rw [List.getElem?_take] at hi
+    split at hi
+    · rename_i huk; exact ⟨huk, i, hi, knnPick_some hF⟩
+    · cases hi
+  refine ⟨r, hres, hrlen, ?_, ?_, ?_⟩
+  · rw [List.Nodup, List.pairwise_iff_getElem]
+    intro u v hu hv huv heq
+    simp only [List.length_map] at hu hv
+    simp only [List.getElem_map] at heq
+    obtain ⟨_, i, hi1, hi2, _⟩ := helem u r[u] (List.getElem?_eq_getElem hu)
+    obtain ⟨_, j, hj1, hj2, _⟩ := helem v r[v] (List.getElem?_eq_getElem hv)
+    rw [heq] at hi2
+    have hij : i = j := nodup_idx_inj h.nodup hi2 hj2
+    subst hij
+    have := nodup_idx_inj hLnd hi1 hj1
+    omega
+  · intro ad had
+    obtain ⟨u, hu⟩ := List.mem_iff_getElem?.mp had
+    obtain ⟨_, i, _, hi2, hi3⟩ := helem u ad hu
+    exact List.mem_iff_getElem?.mpr ⟨i, List.getElem?_zip_eq_some.mpr ⟨hi2, hi3⟩⟩
+  · intro ad had be hbe hout
+    obtain ⟨u, hu⟩ := List.mem_iff_getElem?.mp had
+    obtain ⟨huk, i, hi1, _, hi3⟩ := helem u ad hu
+    obtain ⟨j, hj⟩ := List.mem_iff_getElem?.mp hbe
+    obtain ⟨hj1, hj2⟩ := List.getElem?_zip_eq_some.mp hj
+    have hjn : j < s.n := by rw [h.len]; exact (List.getElem?_eq_some_iff.mp hj1).1
+    have hjL : j ∈ L := hperm.mem_iff.mpr (by rw [hd]; simpa using hjn)
+    obtain ⟨t, ht⟩ := List.mem_iff_getElem?.mp hjL
+    have htk : k ≤ t := by
+      rcases Nat.lt_or_ge t k with htk | htk
+      · exfalso
+        apply hout
+        have h1 : (L.take k)[t]? = some j := by rw [List.getElem?_take, if_pos htk]; exact ht
+        have h2 : knnPick s d j = some be := by
+          unfold knnPick; rw [hj1, hj2]
+        have := (hget t be).mpr ⟨j, h1, h2⟩
+        exact List.mem_map.mpr ⟨be, List.mem_of_getElem? this, rfl⟩
+      · exact htk
+    have hpl : k - 1 < L.length := by omega
+    obtain ⟨hlo, hhi⟩ := hpiv L[k - 1] (List.getElem?_eq_getElem hpl)
+    have e1 : d.getD i 0 = ad.2 := by simp [List.getD, hi3]
+    have e2 : d.getD j 0 = be.2 := by simp [List.getD, hj2]
+    have hup := hhi t j (by omega) ht
+    rw [e2] at hup
+    rcases Nat.lt_or_ge u (k - 1) with hu1 | hu1
+    · have := hlo u i hu1 hi1; rw [e1] at this; omega
+    · have hueq : u = k - 1 := by omega
+      subst hueq
+      rw [List.getElem?_eq_getElem hpl] at hi1
+      have : L[k - 1] = i := by simpa using hi1
+      rw [this, e1] at hup; exact hup
+
+/-- the complete stable sort the driver uses satisfies the `argpartition` post-condition -/
+theorem argsortPart_spec : ArgPartSpec argsortPart := by
+  intro d kth _
+  have hsorted := List.pairwise_mergeSort (le := fun i j => decide (d.getD i 0 ≤ d.getD j 0))
+    (fun a b c h1 h2 => by simp only [decide_eq_true_eq] at *; omega)
+    (fun a b => by simp only [Bool.or_eq_true, decide_eq_true_eq]; omega) (List.range d.length)
+  refine ⟨List.mergeSort_perm _ _, ?_⟩
+  intro p hp
+  rw [List.pairwise_iff_getElem] at hsorted
+  have key : ∀ (i j x y : Nat), i < j → (argsortPart d kth)[i]? = some x → (argsortPart d kth)[j]? = some y →
+      d.getD x 0 ≤ d.getD y 0 := by
+    intro i j x y hij hx hy
+    obtain ⟨hi, ex⟩ := List.getElem?_eq_some_iff.mp hx
+    obtain ⟨hj, ey⟩ := List.getElem?_eq_some_iff.mp hy
+    have := hsorted i j hi hj hij
+    unfold argsortPart at ex ey
+    rw [ex, ey] at this
+    simpa using this
+  exact ⟨fun i x hi hx => key i kth x p hi hx hp, fun j y hj hy => key kth j p y hj hp hy⟩
+
+/-! ### distances -/
+
+theorem dist2Aux_comm (t : Bool) (ds : List (Int × Int)) (p q : Pos) :
+    dist2Aux t ds p q = dist2Aux t ds q p := by
+  induction ds generalizing p q with
+  | nil => simp [dist2Aux]
+  | cons d ds ih =>
+    cases p with
+    | nil => cases q <;> simp [dist2Aux]
+    | cons a p =>
+      cases q with
+      | nil => simp [dist2Aux]
+      | cons b q => simp [dist2Aux, axisDist_comm t _ a b, ih p q]
+
+theorem dist2Aux_self (t : Bool) (ds : List (Int × Int)) (p : Pos) (hw : ∀ d ∈ ds, d.1 ≤ d.2) :
+    dist2Aux t ds p p = 0 := by
+  induction ds generalizing p with
+  | nil => simp [dist2Aux]
+  | cons d ds ih =>
+    cases p with
+    | nil => simp [dist2Aux]
+    | cons a p =>
+      have h1 : axisDist t (d.2 - d.1) a a = 0 := axisDist_self t _ a (by have := hw d (by simp); omega)
+      simp [dist2Aux, h1, sq, ih p (fun d' hd' => hw d' (by simp [hd']))]
+
+theorem dist2Aux_nonneg (t : Bool) (ds : List (Int × Int)) (p q : Pos) : 0 ≤ dist2Aux t ds p q := by
+  induction ds generalizing p q with
+  | nil => simp [dist2Aux]
+  | cons d ds ih =>
+    cases p with
+    | nil => cases q <;> simp [dist2Aux]
+    | cons a p =>
+      cases q with
+      | nil => simp [dist2Aux]
+      | cons b q =>
+        simp only [dist2Aux]
+        have := sq_nonneg (axisDist t (d.2 - d.1) a b)
+        have := ih p q
+        omega
+
+/-- squared Euclidean length of a vector -/
+def norm2 : Pos → Int
+  | [] => 0
+  | x :: xs => sq x + norm2 xs
+
+theorem diffAux_norm2 (t : Bool) (ds : List (Int × Int)) (p q : Pos) (hw : ∀ d ∈ ds, d.1 ≤ d.2) :
+    norm2 (diffAux t ds p q) = dist2Aux t ds p q := by
+  induction ds generalizing p q with
+  | nil => simp [diffAux, dist2Aux, norm2]
+  | cons d ds ih =>
+    cases p with
+    | nil => cases q <;> simp [diffAux, dist2Aux, norm2]
+    | cons a p =>
+      cases q with
+      | nil => simp [diffAux, dist2Aux, norm2]
+      | cons b q =>
+        simp only [diffAux, dist2Aux, norm2]
+        rw [axisHeading_sq t _ a b (by have := hw d (by simp); omega),
+          ih p q (fun d' hd' => hw d' (by simp [hd']))]
+
+/-! ### bounds of the experimental space -/
+
+def ECfg.WF (c : ECfg) : Prop := ∀ d ∈ c.dims, d.1 < d.2
+
+theorem torusCorrect_inBounds (ds : List (Int × Int)) (p : Pos) (hw : ∀ d ∈ ds, d.1 < d.2) :
+    inBounds ds (torusCorrect ds p) = true := by
+  induction ds generalizing p with
+  | nil => simp [inBounds]
+  | cons d ds ih =>
+    cases p with
+    | nil => simp [torusCorrect, inBounds]
+    | cons x p =>
+      have hb := wrap_bounds d.1 (d.2 - d.1) x (by have := hw d (by simp); omega)
+      simp only [torusCorrect, inBounds, Bool.and_eq_true, decide_eq_true_eq]
+      exact ⟨⟨hb.1, by omega⟩, ih p (fun d' hd' => hw d' (by simp [hd']))⟩
+
+theorem eassign_inBounds (c : ECfg) (hw : c.WF) {p p' : Pos} (h : eassign c p = some p') :
+    inBounds c.dims p' = true := by
+  unfold eassign at h
+  split at h
+  · cases h; assumption
+  · split at h
+    · cases h; exact torusCorrect_inBounds _ _ hw
+    · cases h
 
 end Mesa.Cont
